@@ -20,6 +20,10 @@ def main():
         if not os.path.isdir(d):
             continue
         prop = sid.split("-")[0]
+        try:
+            prop = json.load(open(os.path.join(d, "meta.json"))).get("check_with", prop)
+        except Exception:
+            pass
         r = subprocess.run([os.path.join(VERIF, "tools", "with_patch.sh"), os.path.join(d, "patch.diff"), os.path.join(VERIF, "check"), prop, "--tier", tier], capture_output=True, text=True, cwd=VERIF)
         lines = r.stdout.splitlines()
         viol = [l for l in lines if l.startswith("VIOLATION")]
